@@ -573,6 +573,8 @@ def main(tier: str, replay: str | None = None):
         for mode in ("clean", "free"):
             samplers["sim", mode] = HistSampler(nsim * 4, SEED + 3)
             jobs["sim", mode] = pool.submit(tlc.run, "Tree", "Tree_gen.cfg", workers=1, constants=dict(MODES[mode], GEN="hist", DEPTH=14), simulate=f"num={nsim}", depth=15, seed=SEED + 1, timeout=6000,
+                                            # every printed history is a TLA+ string that TLC interns for good: the heap bounds the number of prints
+                                            heap="3g" if tier == "quick" else "10g",
                                             on_line=samplers["sim", mode], keep_cases=False, meta_root=meta_root)
     model_verdicts = {}
     for mode in MODES:
